@@ -181,16 +181,12 @@ func Conv(f Format, val interface{}) (Value, error) {
 }
 
 func toInt8(val interface{}) (int8, error) {
-	switch x := val.(type) {
-	case uint8:
-		return int8(x), nil
-	case int8:
+	if x, ok := val.(int8); ok {
 		return x, nil
-	default:
-		i, err := toInt64(val)
-		if err == nil && i >= math.MinInt8 && i <= math.MaxInt8 {
-			return int8(i), nil
-		}
+	}
+	i, err := toInt64(val)
+	if err == nil && i >= math.MinInt8 && i <= math.MaxInt8 {
+		return int8(i), nil
 	}
 	return 0, fmt.Errorf("cannot coerse '%T' to int8", val)
 }
@@ -235,16 +231,12 @@ func toInt8List(val interface{}) ([]int8, error) {
 }
 
 func toUInt8(val interface{}) (uint8, error) {
-	switch x := val.(type) {
-	case int8:
-		return uint8(x), nil
-	case uint8:
+	if x, ok := val.(uint8); ok {
 		return x, nil
-	default:
-		i, err := toUInt64(val)
-		if err == nil && i >= 0 && i <= math.MaxUint8 {
-			return uint8(i), nil
-		}
+	}
+	i, err := toUInt64(val)
+	if err == nil && i <= math.MaxUint8 {
+		return uint8(i), nil
 	}
 	return 0, fmt.Errorf("cannot coerse '%T' to uint8", val)
 }
@@ -289,20 +281,12 @@ func toUInt8List(val interface{}) ([]uint8, error) {
 }
 
 func toInt16(val interface{}) (int16, error) {
-	switch x := val.(type) {
-	case int8:
-		return int16(x), nil
-	case uint8:
-		return int16(x), nil
-	case uint16:
-		return int16(x), nil
-	case int16:
+	if x, ok := val.(int16); ok {
 		return x, nil
-	default:
-		i, err := toInt64(val)
-		if err == nil && i >= math.MinInt16 && i <= math.MaxInt16 {
-			return int16(i), nil
-		}
+	}
+	i, err := toInt64(val)
+	if err == nil && i >= math.MinInt16 && i <= math.MaxInt16 {
+		return int16(i), nil
 	}
 	return 0, fmt.Errorf("cannot coerse '%T' to int16", val)
 }
@@ -347,20 +331,12 @@ func toInt16List(val interface{}) ([]int16, error) {
 }
 
 func toUInt16(val interface{}) (uint16, error) {
-	switch x := val.(type) {
-	case int8:
-		return uint16(x), nil
-	case uint8:
-		return uint16(x), nil
-	case int16:
-		return uint16(x), nil
-	case uint16:
+	if x, ok := val.(uint16); ok {
 		return x, nil
-	default:
-		i, err := toUInt64(val)
-		if err == nil && i >= 0 && i <= math.MaxUint16 {
-			return uint16(i), nil
-		}
+	}
+	i, err := toUInt64(val)
+	if err == nil && i <= math.MaxUint16 {
+		return uint16(i), nil
 	}
 	return 0, fmt.Errorf("cannot coerse '%T' to uint16", val)
 }
@@ -405,37 +381,12 @@ func toUInt16List(val interface{}) ([]uint16, error) {
 }
 
 func toInt32(val interface{}) (n int32, err error) {
-	switch x := val.(type) {
-	case int8:
-		return int32(x), nil
-	case uint8:
-		return int32(x), nil
-	case int16:
-		return int32(x), nil
-	case uint16:
-		return int32(x), nil
-	case int32:
-		return int32(x), nil
-	case uint32:
-		return int32(x), nil
-	case uint:
-		return int32(x), nil
-	case int:
-		return int32(x), nil
-	case int64:
-		return int32(x), nil
-	case string:
-		i, err := strconv.ParseInt(x, 10, 32)
-		return int32(i), err
-	case float64:
-		return int32(x), nil
-	case float32:
-		return int32(x), nil
-	default:
-		i, err := toInt64(val)
-		if err == nil && i >= math.MinInt32 && i <= math.MaxUint32 {
-			return int32(i), nil
-		}
+	if x, ok := val.(int32); ok {
+		return x, nil
+	}
+	i, err := toInt64(val)
+	if err == nil && i >= math.MinInt32 && i <= math.MaxInt32 {
+		return int32(i), nil
 	}
 	return 0, fmt.Errorf("cannot coerse '%T' to int32", val)
 }
@@ -489,28 +440,12 @@ func toInt32List(val interface{}) ([]int32, error) {
 }
 
 func toUInt32(val interface{}) (uint32, error) {
-	switch x := val.(type) {
-	case int8:
-		return uint32(x), nil
-	case uint8:
-		return uint32(x), nil
-	case int16:
-		return uint32(x), nil
-	case uint16:
-		return uint32(x), nil
-	case int32:
-		return uint32(x), nil
-	case uint:
-		return uint32(x), nil
-	case int:
-		return uint32(x), nil
-	case uint32:
+	if x, ok := val.(uint32); ok {
 		return x, nil
-	default:
-		i, err := toUInt64(val)
-		if err == nil && i <= math.MaxUint32 {
-			return uint32(i), nil
-		}
+	}
+	i, err := toUInt64(val)
+	if err == nil && i <= math.MaxUint32 {
+		return uint32(i), nil
 	}
 	return 0, fmt.Errorf("cannot coerse '%T' to uint32", val)
 }
@@ -580,17 +515,21 @@ func toInt64(val interface{}) (n int64, err error) {
 	case int:
 		return int64(x), nil
 	case uint:
-		return int64(x), nil
+		if uint64(x) <= math.MaxInt64 {
+			return int64(x), nil
+		}
 	case uint64:
-		return int64(x), nil
+		if x <= math.MaxInt64 {
+			return int64(x), nil
+		}
 	case int64:
 		return x, nil
 	case string:
 		return strconv.ParseInt(x, 10, 64)
 	case float64:
-		return int64(x), nil
+		return floatToInt64(x)
 	case float32:
-		return int64(x), nil
+		return floatToInt64(float64(x))
 	case time.Time:
 		return x.Unix(), nil
 	default:
@@ -599,6 +538,22 @@ func toInt64(val interface{}) (n int64, err error) {
 		}
 	}
 	return 0, fmt.Errorf("cannot coerse '%T' to int64", val)
+}
+
+// floatToInt64 converts only whole numbers inside the int64 range
+func floatToInt64(f float64) (int64, error) {
+	if f != math.Trunc(f) || f < -(1<<63) || f >= (1<<63) {
+		return 0, fmt.Errorf("cannot coerse %v to int64 without loss", f)
+	}
+	return int64(f), nil
+}
+
+// floatToUInt64 converts only whole, non-negative numbers inside the uint64 range
+func floatToUInt64(f float64) (uint64, error) {
+	if f != math.Trunc(f) || f < 0 || f >= (1<<64) {
+		return 0, fmt.Errorf("cannot coerse %v to uint64 without loss", f)
+	}
+	return uint64(f), nil
 }
 
 func toInt64List(val interface{}) ([]int64, error) {
@@ -657,35 +612,31 @@ func toInt64List(val interface{}) ([]int64, error) {
 
 func toUInt64(val interface{}) (uint64, error) {
 	switch x := val.(type) {
-	case int8:
-		return uint64(x), nil
 	case uint8:
-		return uint64(x), nil
-	case int16:
 		return uint64(x), nil
 	case uint16:
 		return uint64(x), nil
-	case int:
-		return uint64(x), nil
 	case uint:
-		return uint64(x), nil
-	case int32:
 		return uint64(x), nil
 	case uint32:
 		return uint64(x), nil
-	case int64:
-		return uint64(x), nil
 	case uint64:
 		return x, nil
+	case int8, int16, int32, int, int64:
+		if i, err := toInt64(x); err == nil && i >= 0 {
+			return uint64(i), nil
+		}
 	case string:
 		i, err := strconv.ParseUint(x, 10, 64)
 		return uint64(i), err
 	case float64:
-		return uint64(x), nil
+		return floatToUInt64(x)
 	case float32:
-		return uint64(x), nil
+		return floatToUInt64(float64(x))
 	case time.Time:
-		return uint64(x.Unix()), nil
+		if i := x.Unix(); i >= 0 {
+			return uint64(i), nil
+		}
 	default:
 		if rv := reflect.ValueOf(val); rv.CanUint() {
 			return rv.Uint(), nil
@@ -698,8 +649,11 @@ func toUInt64List(val interface{}) ([]uint64, error) {
 	switch x := val.(type) {
 	case []int:
 		l := make([]uint64, len(x))
+		var err error
 		for i := 0; i < len(x); i++ {
-			l[i] = uint64(x[i])
+			if l[i], err = toUInt64(x[i]); err != nil {
+				return nil, err
+			}
 		}
 		return l, nil
 	case []uint64:
